@@ -219,8 +219,8 @@ def t_combinator_methods(E):
             isinstance(m, Obj) and m.cls.name == "MaskCombinator" and E.eq(m.fields["gen_fn"], g))
     sw = E.method(g, "switch", g2, g3)
     E.prove("C13.GenerativeFunction.switch.branches_are_self_then_the_others_in_order",
-            E.eq(sw, E.call(COMB + ".switch:switch", g, g2, g3)) and isinstance(sw, Obj) and sw.cls.name == "Switch"
-            and E.eq(tuple(sw.fields["branches"]), (g, g2, g3)))
+            isinstance(sw, Obj) and sw.cls.name == "Switch" and len(sw.fields["branches"]) == 3 and E.And(
+                E.eq(sw, E.call(COMB + ".switch:switch", g, g2, g3)), E.eq(tuple(sw.fields["branches"]), (g, g2, g3))))
     for pid, name, mod, kw in (("C11", "repeat", ".repeat:repeat", {"n": n}), ("C12", "accumulate", ".scan:accumulate", {}),
                                ("C12", "reduce", ".scan:reduce", {}), ("C12", "iterate", ".scan:iterate", {"n": n}),
                                ("C12", "iterate_final", ".scan:iterate_final", {"n": n}),
